@@ -869,6 +869,11 @@ impl<F: Field> Assignment<F> for WitnessCollection<'_, F> {
             .and_then(|v| v.get_mut(row))
             .ok_or(Error::BoundsFailure)? = to().into_field().assign()?;
 
+        #[cfg(feature = "verif-hooks")]
+        if let Some(v) = crate::verif_hooks::on_prover_assign_advice::<F>(column.index(), row) {
+            self.advice[column.index()][row] = Rational::Trivial(v);
+        }
+
         Ok(())
     }
 
